@@ -8,6 +8,7 @@ import (
 	"testing"
 
 	"github.com/freeconf/yang/node"
+	"github.com/freeconf/yang/val"
 	"github.com/freeconf/yang/nodeutil"
 	"pgregory.net/rapid"
 
@@ -439,6 +440,33 @@ func c16Run(c c16Case, o *hx.Obs) {
 	if rerr != nil {
 		o.Failf(sig("error"), "read with %q (operand %v unset %v) failed: %v", expr, c.Values[:rows], c.Unset[:rows], rerr)
 		return
+	}
+	if c.Placement == "leaf-when" {
+		// the guarded leaf read on its own, through a selection on the leaf and by GetValue
+		for _, how := range []string{"Find.Get", "GetValue"} {
+			var v val.Value
+			var gerr error
+			if o.Guard(how, func() {
+				sel := node.NewBrowser(mm, dm.NewRS(modelRoot, dm.CloneTree(data))).Root()
+				if how == "GetValue" {
+					v, gerr = sel.GetValue("y")
+				} else if ls, e := sel.Find("y"); e != nil || ls == nil {
+					gerr = fmt.Errorf("Find(y): %v", e)
+				} else {
+					v, gerr = ls.Get()
+				}
+			}) {
+				return
+			}
+			if gerr != nil {
+				o.Failf(sig("error-"+how), "%s of the guarded leaf with %q (operand %v unset %v) failed: %v", how, expr, c.Values[:rows], c.Unset[:rows], gerr)
+				return
+			}
+			if got := v != nil; got != holds[0] {
+				o.Failf(sig("leaf-read-"+how), "%s of the guarded leaf with %q (operand %v unset %v) returned a value: %v, the expression is %v", how, expr, c.Values[:rows], c.Unset[:rows], got, holds[0])
+				return
+			}
+		}
 	}
 	dec, derr := dm.DecodeOne(text)
 	if derr != nil {
